@@ -166,119 +166,181 @@ Proof.
   repeat match goal with |- context [if ?c then _ else _] => destruct c; cbn [map_res]; try reflexivity end.
 Qed.
 
-Definition shift_state (d : Z) (s : pstate) : pstate :=
-  {| ps_cur := ps_cur s; ps_count := ps_count s; ps_ins := ps_ins s; ps_outs := ps_outs s; ps_intras := ps_intras s;
-     ps_art := map (shift_out d) (ps_art s); ps_counter := ps_counter s + d |}.
+(** ids below the counter's start value [c0] are the artificial ones; sheet rows are numbered from 1 >= c0 *)
+Definition shift_row (d c0 r : Z) : Z := if r <? c0 then r + d else r.
+Definition shift_meta (d c0 : Z) (m : list (Z * arg * arg)) : list (Z * arg * arg) :=
+  map (fun e => match e with (r, a, b) => (shift_row d c0 r, a, b) end) m.
 
-Lemma data_row_shift d cfg asset s t rowno row :
-  data_row cfg asset (shift_state d s) t rowno row = map_res (shift_state d) (data_row cfg asset s t rowno row).
+Definition shift_state (d c0 : Z) (s : pstate) : pstate :=
+  {| ps_cur := ps_cur s; ps_count := ps_count s; ps_ins := ps_ins s; ps_outs := ps_outs s; ps_intras := ps_intras s;
+     ps_art := map (shift_out d) (ps_art s); ps_counter := ps_counter s + d;
+     ps_meta := shift_meta d c0 (ps_meta s); ps_seen := ps_seen s |}.
+
+Lemma shift_row_real d c0 r : c0 <= r -> shift_row d c0 r = r.
+Proof. intros H. unfold shift_row. destruct (r <? c0) eqn:E; auto. apply Z.ltb_lt in E. lia. Qed.
+Lemma shift_row_art d c0 r : r < c0 -> shift_row d c0 r = r + d.
+Proof. intros H. unfold shift_row. destruct (r <? c0) eqn:E; auto. apply Z.ltb_ge in E. lia. Qed.
+
+Lemma data_row_shift d c0 cfg asset s t rowno row :
+  ps_counter s <= c0 -> c0 <= rowno ->
+  data_row cfg asset (shift_state d c0 s) t rowno row = map_res (shift_state d c0) (data_row cfg asset s t rowno row).
 Proof.
-  destruct t; unfold data_row, bind.
+  intros Hc Hr. destruct t; unfold data_row, bind; cbv zeta.
   - destruct (create_in cfg rowno row) as [r|]; [|reflexivity].
     destruct (mk_in r) as [a|]; [|reflexivity].
     destruct (negb (asset_is cfg (pc_in cfg) row asset)); [reflexivity|].
-    destruct (0 <? i_crypto_fee a); [|reflexivity].
-    destruct (split_in a) as [a'|]; [|reflexivity].
-    cbn [ps_counter shift_state]. replace (ps_counter s + d - 1) with (ps_counter s - 1 + d) by lia.
-    rewrite fee_out_shift. destruct (fee_out a (ps_counter s - 1)) as [o|]; [|reflexivity].
-    cbn [map_res shift_state ps_cur ps_count ps_ins ps_outs ps_intras ps_art ps_counter].
-    unfold shift_state. cbn [ps_cur ps_count ps_ins ps_outs ps_intras ps_art ps_counter]. rewrite map_app. reflexivity.
+    destruct (0 <? i_crypto_fee a).
+    + destruct (split_in a) as [a'|]; [|reflexivity].
+      cbn [ps_counter shift_state]. replace (ps_counter s + d - 1) with (ps_counter s - 1 + d) by lia.
+      rewrite fee_out_shift. destruct (fee_out a (ps_counter s - 1)) as [o|]; [|reflexivity].
+      cbn [map_res]. unfold shift_state, upd_state. cbn [ps_cur ps_count ps_ins ps_outs ps_intras ps_art ps_counter ps_meta ps_seen].
+      unfold shift_meta. rewrite !map_app. cbn [map].
+      rewrite (shift_row_real d c0 rowno Hr), (shift_row_art d c0 (ps_counter s - 1)) by lia. reflexivity.
+    + cbn [map_res]. unfold shift_state, upd_state. cbn [ps_cur ps_count ps_ins ps_outs ps_intras ps_art ps_counter ps_meta ps_seen].
+      unfold shift_meta. rewrite !map_app. cbn [map]. rewrite (shift_row_real d c0 rowno Hr). reflexivity.
   - destruct (create_out cfg rowno row) as [r|]; [|reflexivity].
     destruct (mk_out r) as [a|]; [|reflexivity].
-    destruct (negb (asset_is cfg (pc_out cfg) row asset)); reflexivity.
+    destruct (negb (asset_is cfg (pc_out cfg) row asset)); [reflexivity|].
+    cbn [map_res]. unfold shift_state, upd_state. cbn [ps_cur ps_count ps_ins ps_outs ps_intras ps_art ps_counter ps_meta ps_seen].
+    unfold shift_meta. rewrite !map_app. cbn [map]. rewrite (shift_row_real d c0 rowno Hr). reflexivity.
   - destruct (create_intra cfg rowno row) as [r|]; [|reflexivity].
     destruct (mk_intra r) as [a|]; [|reflexivity].
-    destruct (negb (asset_is cfg (pc_intra cfg) row asset)); reflexivity.
+    destruct (negb (asset_is cfg (pc_intra cfg) row asset)); [reflexivity|].
+    cbn [map_res]. unfold shift_state, upd_state. cbn [ps_cur ps_count ps_ins ps_outs ps_intras ps_art ps_counter ps_meta ps_seen].
+    unfold shift_meta. rewrite !map_app. cbn [map]. rewrite (shift_row_real d c0 rowno Hr). reflexivity.
 Qed.
 
-Lemma row_step_shift d cfg asset s rowno row :
-  row_step cfg asset (shift_state d s) rowno row = map_res (shift_state d) (row_step cfg asset s rowno row).
+Lemma data_row_counter cfg asset s t rowno row s' : data_row cfg asset s t rowno row = Ok s' -> ps_counter s' <= ps_counter s.
 Proof.
-  unfold row_step. cbv zeta. cbn [ps_cur ps_count shift_state].
+  destruct t; unfold data_row, bind; cbv zeta.
+  - destruct (create_in cfg rowno row) as [r|]; [|discriminate].
+    destruct (mk_in r) as [a|]; [|discriminate].
+    destruct (negb (asset_is cfg (pc_in cfg) row asset)); [discriminate|].
+    destruct (0 <? i_crypto_fee a).
+    + destruct (split_in a) as [a'|]; [|discriminate].
+      destruct (fee_out a (ps_counter s - 1)) as [o|]; [|discriminate]. intros [= <-]. cbn. lia.
+    + intros [= <-]. cbn. lia.
+  - destruct (create_out cfg rowno row) as [r|]; [|discriminate].
+    destruct (mk_out r) as [a|]; [|discriminate].
+    destruct (negb (asset_is cfg (pc_out cfg) row asset)); [discriminate|]. intros [= <-]. cbn. lia.
+  - destruct (create_intra cfg rowno row) as [r|]; [|discriminate].
+    destruct (mk_intra r) as [a|]; [|discriminate].
+    destruct (negb (asset_is cfg (pc_intra cfg) row asset)); [discriminate|]. intros [= <-]. cbn. lia.
+Qed.
+
+Ltac bad_scrut s row :=
   destruct (match ps_cur s with
             | Some _ => (match table_of_cell (nth 0 row CEmpty) with Some _ => true | None => false end) || is_empty_cell (nth 0 row CEmpty)
             | None => is_table_end (nth 0 row CEmpty) || (negb (is_empty_cell (nth 0 row CEmpty)) &&
                       (match table_of_cell (nth 0 row CEmpty) with Some _ => false | None => true end))
-            end); [reflexivity|].
+            end).
+
+Lemma row_step_counter rem cfg asset s rowno row s' : row_step_gen rem cfg asset s rowno row = Ok s' -> ps_counter s' <= ps_counter s.
+Proof.
+  unfold row_step_gen. cbv zeta. bad_scrut s row; [discriminate|].
   destruct (table_of_cell (nth 0 row CEmpty)) as [t|].
-  - assert (Hse : set_empty (shift_state d s) t = set_empty s t) by (destruct t; reflexivity).
-    rewrite Hse. destruct (negb (set_empty s t)); reflexivity.
+  - destruct (repeated_table rem s t); [discriminate|]. intros [= <-]. cbn. lia.
+  - destruct (is_table_end (nth 0 row CEmpty)); [intros [= <-]; cbn; lia|].
+    destruct (ps_cur s) as [t|]; [|intros [= <-]; cbn; lia].
+    destruct (ps_count s =? 1).
+    + destruct (constructs cfg t rowno row); [discriminate|]. intros [= <-]. cbn. lia.
+    + destruct (data_row cfg asset s t rowno row) as [s1|] eqn:E; [|discriminate].
+      intros [= <-]. cbn. eapply data_row_counter; exact E.
+Qed.
+
+Lemma row_step_shift rem d c0 cfg asset s rowno row :
+  ps_counter s <= c0 -> c0 <= rowno ->
+  row_step_gen rem cfg asset (shift_state d c0 s) rowno row = map_res (shift_state d c0) (row_step_gen rem cfg asset s rowno row).
+Proof.
+  intros Hc Hr. unfold row_step_gen. cbv zeta. cbn [ps_cur ps_count shift_state].
+  bad_scrut s row; [reflexivity|].
+  destruct (table_of_cell (nth 0 row CEmpty)) as [t|].
+  - assert (Hse : repeated_table rem (shift_state d c0 s) t = repeated_table rem s t) by (destruct rem, t; reflexivity).
+    rewrite Hse. destruct (repeated_table rem s t); reflexivity.
   - destruct (is_table_end (nth 0 row CEmpty)); [reflexivity|].
     destruct (ps_cur s) as [t|]; [|reflexivity].
     destruct (ps_count s =? 1).
     + destruct (constructs cfg t rowno row); reflexivity.
-    + rewrite data_row_shift. destruct (data_row cfg asset s t rowno row) as [s'|]; reflexivity.
+    + rewrite data_row_shift by assumption. destruct (data_row cfg asset s t rowno row) as [s'|]; reflexivity.
 Qed.
 
-Lemma parse_rows_shift d cfg asset : forall rows s rowno,
-  parse_rows cfg asset (shift_state d s) rowno rows = map_res (shift_state d) (parse_rows cfg asset s rowno rows).
+Lemma parse_rows_shift rem d c0 cfg asset : forall rows s rowno,
+  ps_counter s <= c0 -> c0 <= rowno ->
+  parse_rows_gen rem cfg asset (shift_state d c0 s) rowno rows = map_res (shift_state d c0) (parse_rows_gen rem cfg asset s rowno rows).
 Proof.
-  induction rows as [|r rows IH]; intros s rowno; simpl; [reflexivity|].
-  rewrite row_step_shift. destruct (row_step cfg asset s rowno r) as [s'|]; simpl; [apply IH|reflexivity].
+  induction rows as [|r rows IH]; intros s rowno Hc Hr; simpl; [reflexivity|].
+  rewrite row_step_shift by assumption.
+  destruct (row_step_gen rem cfg asset s rowno r) as [s'|] eqn:E; simpl; [|reflexivity].
+  apply IH; [|lia]. apply row_step_counter in E. lia.
 Qed.
 
 (** the parse result with its artificial FEE rows kept apart *)
-Record parts := { pp_ins : list intx; pp_outs : list outtx; pp_art : list outtx; pp_intras : list intratx; pp_counter : Z }.
+Record parts := { pp_ins : list intx; pp_outs : list outtx; pp_art : list outtx; pp_intras : list intratx; pp_counter : Z;
+                  pp_meta : list (Z * arg * arg) }.
 Definition merge (p : parts) : parsed :=
-  {| pa_ins := pp_ins p; pa_outs := pp_outs p ++ pp_art p; pa_intras := pp_intras p; pa_counter := pp_counter p |}.
-Definition shift_parts (d : Z) (p : parts) : parts :=
+  {| pa_ins := pp_ins p; pa_outs := pp_outs p ++ pp_art p; pa_intras := pp_intras p; pa_counter := pp_counter p; pa_meta := pp_meta p |}.
+Definition shift_parts (d c0 : Z) (p : parts) : parts :=
   {| pp_ins := pp_ins p; pp_outs := pp_outs p; pp_art := map (shift_out d) (pp_art p); pp_intras := pp_intras p;
-     pp_counter := pp_counter p + d |}.
+     pp_counter := pp_counter p + d; pp_meta := shift_meta d c0 (pp_meta p) |}.
 Definition init_state (counter : Z) : pstate :=
-  {| ps_cur := None; ps_count := 0; ps_ins := []; ps_outs := []; ps_intras := []; ps_art := []; ps_counter := counter |}.
-Definition parse_parts (cfg : pcfg) (asset : str) (counter : Z) (rows : list (list cell)) : result parts :=
+  {| ps_cur := None; ps_count := 0; ps_ins := []; ps_outs := []; ps_intras := []; ps_art := []; ps_counter := counter;
+     ps_meta := []; ps_seen := [] |}.
+Definition parse_parts_gen (rem : bool) (cfg : pcfg) (asset : str) (counter : Z) (rows : list (list cell)) : result parts :=
   match str_index asset (pc_assets cfg) 0 with
   | None => Err EValue
   | Some _ =>
-    match parse_rows cfg asset (init_state counter) 1 rows with
+    match parse_rows_gen rem cfg asset (init_state counter) 1 rows with
     | Err e => Err e
     | Ok s => match ps_cur s with
               | Some _ => Err EValue
               | None => match ps_ins s with
                         | [] => Err EValue
                         | _ => Ok {| pp_ins := ps_ins s; pp_outs := ps_outs s; pp_art := ps_art s; pp_intras := ps_intras s;
-                                     pp_counter := ps_counter s |}
+                                     pp_counter := ps_counter s; pp_meta := ps_meta s |}
                         end
               end
     end
   end.
+Definition parse_parts := parse_parts_gen gen_parser_remembers_tables.
 
-Lemma parse_sheet_parts cfg asset counter rows :
-  parse_sheet cfg asset counter rows = map_res merge (parse_parts cfg asset counter rows).
+Lemma parse_sheet_parts_gen rem cfg asset counter rows :
+  parse_sheet_gen rem cfg asset counter rows = map_res merge (parse_parts_gen rem cfg asset counter rows).
 Proof.
-  unfold parse_sheet, parse_parts, init_state. destruct (str_index asset (pc_assets cfg) 0); [|reflexivity].
-  destruct (parse_rows cfg asset _ 1 rows) as [s|]; [|reflexivity].
+  unfold parse_sheet_gen, parse_parts_gen, init_state. destruct (str_index asset (pc_assets cfg) 0); [|reflexivity].
+  destruct (parse_rows_gen rem cfg asset _ 1 rows) as [s|]; [|reflexivity].
   destruct (ps_cur s); [reflexivity|]. destruct (ps_ins s); reflexivity.
 Qed.
 
-Theorem parse_parts_counter : forall cfg asset c d rows,
-  parse_parts cfg asset (c + d) rows = map_res (shift_parts d) (parse_parts cfg asset c rows).
+Theorem parse_parts_counter : forall rem cfg asset c d rows, c <= 1 ->
+  parse_parts_gen rem cfg asset (c + d) rows = map_res (shift_parts d c) (parse_parts_gen rem cfg asset c rows).
 Proof.
-  intros cfg asset c d rows. unfold parse_parts.
+  intros rem cfg asset c d rows Hc. unfold parse_parts_gen.
   destruct (str_index asset (pc_assets cfg) 0); [|reflexivity].
-  change (init_state (c + d)) with (shift_state d (init_state c)).
-  rewrite parse_rows_shift. destruct (parse_rows cfg asset (init_state c) 1 rows) as [s|]; [|reflexivity].
+  change (init_state (c + d)) with (shift_state d c (init_state c)).
+  rewrite parse_rows_shift by (cbn; lia). destruct (parse_rows_gen rem cfg asset (init_state c) 1 rows) as [s|]; [|reflexivity].
   cbn [map_res shift_state ps_cur ps_ins]. destruct (ps_cur s); [reflexivity|].
   destruct (ps_ins s); reflexivity.
 Qed.
 
-(** parsing a sheet with another value of the counter gives the same transactions, except that the
-    artificial FEE out-transactions carry ids shifted by the same amount; success and failure coincide *)
-Theorem counter_only_renames_artificial_ids : forall cfg asset c d rows,
+(** parsing a sheet with another value of the counter (which starts at 0 and only decreases, so c <= 1 = the first sheet
+    row) gives the same transactions, except that the artificial FEE out-transactions -- and their entries in the
+    row-id -> (unique id, notes) table -- carry ids shifted by the same amount; success and failure coincide *)
+Theorem counter_only_renames_artificial_ids : forall cfg asset c d rows, c <= 1 ->
   match parse_sheet cfg asset c rows with
   | Err e => parse_sheet cfg asset (c + d) rows = Err e
   | Ok p => exists real arts,
       pa_outs p = real ++ arts /\
       parse_sheet cfg asset (c + d) rows =
-        Ok {| pa_ins := pa_ins p; pa_outs := real ++ map (shift_out d) arts; pa_intras := pa_intras p; pa_counter := pa_counter p + d |}
+        Ok {| pa_ins := pa_ins p; pa_outs := real ++ map (shift_out d) arts; pa_intras := pa_intras p; pa_counter := pa_counter p + d;
+              pa_meta := shift_meta d c (pa_meta p) |}
   end.
 Proof.
-  intros cfg asset c d rows. rewrite !parse_sheet_parts, parse_parts_counter.
-  destruct (parse_parts cfg asset c rows) as [p|e]; cbn [map_res]; [|reflexivity].
+  intros cfg asset c d rows Hc. unfold parse_sheet. rewrite !parse_sheet_parts_gen, parse_parts_counter by exact Hc.
+  destruct (parse_parts_gen gen_parser_remembers_tables cfg asset c rows) as [p|e]; cbn [map_res]; [|reflexivity].
   exists (pp_outs p), (pp_art p). split; reflexivity.
 Qed.
 
-(** artificial ids are negative and pairwise distinct when the counter starts at or below zero *)
+(** artificial ids lie below the counter's start value and are pairwise distinct *)
 Lemma fee_out_row a id o : fee_out a id = Ok o -> o_row o = id.
 Proof. unfold fee_out. intros H. apply mk_out_ts in H as [_ H]. exact H. Qed.
 
@@ -294,57 +356,49 @@ Definition art_inv (c0 : Z) (s : pstate) : Prop :=
 Lemma data_row_art c0 cfg asset s t rowno row s' :
   art_inv c0 s -> data_row cfg asset s t rowno row = Ok s' -> art_inv c0 s'.
 Proof.
-  intros (Hc & Hf & Hn). destruct t; unfold data_row, bind.
+  intros (Hc & Hf & Hn). destruct t; unfold data_row, bind; cbv zeta.
   - destruct (create_in cfg rowno row) as [r|]; [|discriminate].
     destruct (mk_in r) as [a|]; [|discriminate].
     destruct (negb (asset_is cfg (pc_in cfg) row asset)); [discriminate|].
     destruct (0 <? i_crypto_fee a).
     + destruct (split_in a) as [a'|]; [|discriminate].
       destruct (fee_out a (ps_counter s - 1)) as [o|] eqn:Eo; [|discriminate].
-      intros [= <-]. apply fee_out_row in Eo. unfold art_inv. cbn [ps_counter ps_art]. split; [lia|]. split.
+      intros [= <-]. apply fee_out_row in Eo. unfold art_inv, upd_state. cbn [ps_counter ps_art]. split; [lia|]. split.
       * apply Forall_app; split; [|constructor; [lia|constructor]].
         eapply Forall_impl; [|exact Hf]. cbv beta. intros; lia.
       * rewrite map_app. simpl. apply NoDup_app_one; [exact Hn|].
         intros Hin. apply in_map_iff in Hin as [o' [Ho' Hin]]. rewrite Forall_forall in Hf. specialize (Hf o' Hin). lia.
-    + intros [= <-]. unfold art_inv; cbn [ps_counter ps_art]; auto.
+    + intros [= <-]. unfold art_inv, upd_state; cbn [ps_counter ps_art]; auto.
   - destruct (create_out cfg rowno row) as [r|]; [|discriminate].
     destruct (mk_out r) as [a|]; [|discriminate].
     destruct (negb (asset_is cfg (pc_out cfg) row asset)); [discriminate|].
-    intros [= <-]. unfold art_inv; cbn [ps_counter ps_art]; auto.
+    intros [= <-]. unfold art_inv, upd_state; cbn [ps_counter ps_art]; auto.
   - destruct (create_intra cfg rowno row) as [r|]; [|discriminate].
     destruct (mk_intra r) as [a|]; [|discriminate].
     destruct (negb (asset_is cfg (pc_intra cfg) row asset)); [discriminate|].
-    intros [= <-]. unfold art_inv; cbn [ps_counter ps_art]; auto.
+    intros [= <-]. unfold art_inv, upd_state; cbn [ps_counter ps_art]; auto.
 Qed.
 
-Lemma with_cur_art c0 s cur n : art_inv c0 s -> art_inv c0 (with_cur s cur n).
-Proof. intros H; exact H. Qed.
-
-Lemma row_step_art c0 cfg asset s rowno row s' :
-  art_inv c0 s -> row_step cfg asset s rowno row = Ok s' -> art_inv c0 s'.
+Lemma row_step_art rem c0 cfg asset s rowno row s' :
+  art_inv c0 s -> row_step_gen rem cfg asset s rowno row = Ok s' -> art_inv c0 s'.
 Proof.
-  intros Hi. unfold row_step. cbv zeta.
-  destruct (match ps_cur s with
-            | Some _ => (match table_of_cell (nth 0 row CEmpty) with Some _ => true | None => false end) || is_empty_cell (nth 0 row CEmpty)
-            | None => is_table_end (nth 0 row CEmpty) || (negb (is_empty_cell (nth 0 row CEmpty)) &&
-                      (match table_of_cell (nth 0 row CEmpty) with Some _ => false | None => true end))
-            end); [discriminate|].
+  intros Hi. unfold row_step_gen. cbv zeta. bad_scrut s row; [discriminate|].
   destruct (table_of_cell (nth 0 row CEmpty)) as [t|].
-  - destruct (negb (set_empty s t)); [discriminate|]. intros [= <-]. apply with_cur_art; exact Hi.
-  - destruct (is_table_end (nth 0 row CEmpty)); [intros [= <-]; apply with_cur_art; exact Hi|].
-    destruct (ps_cur s) as [t|]; [|intros [= <-]; apply with_cur_art; exact Hi].
+  - destruct (repeated_table rem s t); [discriminate|]. intros [= <-]. exact Hi.
+  - destruct (is_table_end (nth 0 row CEmpty)); [intros [= <-]; exact Hi|].
+    destruct (ps_cur s) as [t|]; [|intros [= <-]; exact Hi].
     destruct (ps_count s =? 1).
-    + destruct (constructs cfg t rowno row); [discriminate|]. intros [= <-]. apply with_cur_art; exact Hi.
+    + destruct (constructs cfg t rowno row); [discriminate|]. intros [= <-]. exact Hi.
     + destruct (data_row cfg asset s t rowno row) as [s1|] eqn:E; [|discriminate].
-      intros [= <-]. apply with_cur_art. eapply data_row_art; eassumption.
+      intros [= <-]. change (art_inv c0 s1). eapply data_row_art; eassumption.
 Qed.
 
-Lemma parse_rows_art c0 cfg asset : forall rows s rowno s',
-  art_inv c0 s -> parse_rows cfg asset s rowno rows = Ok s' -> art_inv c0 s'.
+Lemma parse_rows_art rem c0 cfg asset : forall rows s rowno s',
+  art_inv c0 s -> parse_rows_gen rem cfg asset s rowno rows = Ok s' -> art_inv c0 s'.
 Proof.
   induction rows as [|r rows IH]; intros s rowno s' Hi; simpl.
   - intros [= <-]; exact Hi.
-  - destruct (row_step cfg asset s rowno r) as [s1|] eqn:E; [|discriminate].
+  - destruct (row_step_gen rem cfg asset s rowno r) as [s1|] eqn:E; [|discriminate].
     intros H. eapply IH; [|exact H]. eapply row_step_art; eassumption.
 Qed.
 
@@ -354,9 +408,9 @@ Theorem artificial_ids_below_counter : forall cfg asset c rows p,
   parse_parts cfg asset c rows = Ok p ->
   pp_counter p <= c /\ Forall (fun o => pp_counter p <= o_row o < c) (pp_art p) /\ NoDup (map o_row (pp_art p)).
 Proof.
-  intros cfg asset c rows p. unfold parse_parts.
+  intros cfg asset c rows p. unfold parse_parts, parse_parts_gen.
   destruct (str_index asset (pc_assets cfg) 0); [|discriminate].
-  destruct (parse_rows cfg asset (init_state c) 1 rows) as [s|] eqn:E; [|discriminate].
+  destruct (parse_rows_gen gen_parser_remembers_tables cfg asset (init_state c) 1 rows) as [s|] eqn:E; [|discriminate].
   assert (Hi : art_inv c s).
   { eapply parse_rows_art; [|exact E]. unfold art_inv, init_state; cbn. split; [lia|]. split; constructor. }
   destruct (ps_cur s); [discriminate|]. destruct (ps_ins s); [discriminate|].
